@@ -246,8 +246,12 @@ func (g *graph) versions(tag string) {
 
 // step performs one symbolically chosen operation; ops limits the menu (see the harness entries)
 func (g *graph) step(i int, ops int) {
+	g.stepOp(i, zz.Choose(fmt.Sprintf("op%d", i), ops))
+}
+
+func (g *graph) stepOp(i int, op int) {
 	tag := fmt.Sprintf("step %d", i)
-	switch zz.Choose(fmt.Sprintf("op%d", i), ops) {
+	switch op {
 	case 0:
 		g.read(zz.Choose(fmt.Sprintf("node%d", i), 4), tag)
 	case 1:
@@ -316,5 +320,25 @@ func ZZ_C11_UpdatesAndReads() {
 		g.step(i, 2)
 	}
 	g.read(zz.Choose("final", 4), "final read")
+	zz.Reach("history done")
+}
+
+// ZZ_C11_ArrayRewire: every node has been evaluated; then a history of appends to / removals from the array input
+// (and reads), closed by a read of every node - re-wirings that leave the number of array elements and the
+// remembered versions unchanged are in the explored set
+func ZZ_C11_ArrayRewire() {
+	g := newGraph()
+	zz.Reach("graph built")
+	for k := 3; k >= 0; k-- {
+		g.read(k, fmt.Sprintf("warm-up read of n%d", k))
+	}
+	n := zz.Bound("STEPS")
+	menu := []int{3, 4, 0}
+	for i := 0; i < n; i++ {
+		g.stepOp(i, menu[zz.Choose(fmt.Sprintf("op%d", i), len(menu))])
+	}
+	for k := 3; k >= 0; k-- {
+		g.read(k, fmt.Sprintf("final read of n%d", k))
+	}
 	zz.Reach("history done")
 }
